@@ -5,7 +5,8 @@ From FlacWriters Require Meta.
 From FlacWriters Require Import Params Finalize C09_proofs Writers.
 From FlacMeta Require Bytes Blocks BlockList Props_C11 Utf8.
 From FlacE2E Require Import E2E Props_E2E.
-From FlacE2EMeta Require Import MetaBridge.
+From FlacWriters Require Import Params_proofs Encoder_proofs.
+From FlacE2EMeta Require Import MetaBridge FinishedBlocks.
 Import ListNotations.
 Open Scope N_scope.
 
@@ -33,6 +34,28 @@ Theorem C11_sample_writer_metadata_read_in_full : forall (u : list N -> bool), F
     Ok (FlacMeta.Blocks.BStreaminfo (convM (f_si f)) :: map convB (f_blocks f)).
 Proof. exact sample_writer_metadata_read_in_full. Qed.
 
+(* ... and with hypotheses on the options only — no user blocks other than PADDING, as in the three presets — and a
+   finished run whose counters fit: every fact about the finalized block list (no opaque block, at most one SEEKTABLE,
+   that table contiguous with every field in range, the digest sixteen bytes) is PROVED from the Encoder's bookkeeping
+   invariants, so the full reader returns the final STREAMINFO and the blocks finalize settled on *)
+Theorem C11_sample_writer_metadata_read : forall enc_block md5 p,
+  (forall l, length (md5 l) = 16%nat) -> (forall l, Forall (fun b => b < 256) (md5 l)) ->
+  forall (u : list N -> bool), FlacMeta.Props_C11.utf8_ok u ->
+  forall o rate bps ch total w chunks f,
+  options_wf o -> Forall plain (o_metadata o) -> seektables (o_metadata o) = 0%nat ->
+  sample_new p [] o rate bps ch total = Ok w ->
+  sample_run enc_block md5 p w chunks = Ok f -> counters_fit (f_enc f) ->
+  FlacMeta.BlockList.read_blocks u (f_stream f) =
+    Ok (FlacMeta.Blocks.BStreaminfo (convM (f_si f)) :: map convB (f_blocks f)) /\
+  Forall plain (f_blocks f) /\ (seektables (f_blocks f) <= 1)%nat.
+Proof. intros enc_block md5 p H1 H2. exact (sample_writer_metadata_read enc_block md5 H1 H2 p). Qed.
+Example C11_presets_qualify :
+  Forall plain (o_metadata options_default) /\ seektables (o_metadata options_default) = 0%nat /\
+  Forall plain (o_metadata options_fast) /\ seektables (o_metadata options_fast) = 0%nat /\
+  Forall plain (o_metadata options_best) /\ seektables (o_metadata options_best) = 0%nat.
+Proof. repeat split; repeat constructor. Qed.
+
+Print Assumptions C11_sample_writer_metadata_read.
 Print Assumptions C11_written_metadata_read_in_full.
 Print Assumptions C11_sample_writer_metadata_read_in_full.
 
